@@ -4,6 +4,7 @@ import MidnightZK.Model.C01.Parse
 import MidnightZK.Model.C01.GraphDump
 import MidnightZK.Model.C01.ArgsRun
 import MidnightZK.Model.C01.Identities
+import MidnightZK.Model.C01.VanRun
 /-! Line-protocol handler of property C01. -/
 namespace MidnightZK.C01.Driver
 open MidnightZK MidnightZK.C01 MidnightZK.C01.Parse
@@ -54,6 +55,7 @@ def step (st : Option Args.ArgCase) (line : String) : Option Args.ArgCase × Str
       match st with
       | some c => (st, Args.answerArg c op rest)
       | none => (st, "bad-op")
+    else if ["hfold", "lirange", "levals", "insteval"].contains op then (st, Van.answerVan op rest)
     else (st, answer line)
   | [] => (st, "bad-op")
 
